@@ -213,6 +213,8 @@ def build_cases(spec, tier, uni, rnd):
         for c in os.environ["VERIF_PROFILES"].split(","):
             o = {}
             sim = None
+            if c.endswith("+fixed"):
+                c, o["fixedseed"] = c[:-6], 0
             if c.endswith("+fnmd"):
                 c, o["fnmd"] = c[:-5], True
             if c.endswith("+md10"):
@@ -228,6 +230,15 @@ def build_cases(spec, tier, uni, rnd):
         cfg, sim = entry[0], entry[1]
         opts = dict(entry[2]) if len(entry) > 2 else {}
         own_cap = opts.pop("cap", None)
+        fixed = opts.pop("fixedseed", None)
+        prnd = rnd
+        if fixed is not None:
+            # an exploration whose alarms were triaged once: the same derivations and the same sample whatever the run's
+            # seed (VERIF_EXPLORE=<seed> re-opens it: expect new shapes of the known defects, each needing triage)
+            fixed = int(os.environ.get("VERIF_EXPLORE", fixed))
+            prnd = random.Random(fixed)
+            if sim:
+                sim = dict(sim, seed=fixed)
         qs, r = pipeline.generate_queries(cfg, simulate=sim)
         gen_states += r.distinct
         gen_trans += r.generated
@@ -235,7 +246,7 @@ def build_cases(spec, tier, uni, rnd):
             # a profile with its own share: smallest terms first, the rest sampled
             n = own_cap[tier]
             qs.sort(key=lambda t: len(render.compact(t["q"])))
-            qs = qs[:n // 2] + rnd.sample(qs[n // 2:], n - n // 2)
+            qs = qs[:n // 2] + prnd.sample(qs[n // 2:], n - n // 2)
             capped = True
         for t in qs:
             t["opts"] = opts
